@@ -1,7 +1,10 @@
 (** C17 property theorems (statements only; the proofs are in Proofs_*.v). *)
 From Coq Require Import ZArith List Bool.
 From AwkV Require Import Base Layout Valid Types Carry.
+From AwkV Require Import Ops_Getitem.
+From AwkV Require Import Proofs_Fillna.
 From AwkTypes Require Import Json Forms TypeStr Typing Proofs_Depth Proofs_Types Proofs_Typing Proofs_Json Proofs_Parse.
+From AwkTypes Require Import Proofs_C17b_Exact Proofs_C17b_Witness Proofs_C17b_Array Proofs_C17b_ParseX_Json Proofs_C17b_ParseX_Defs Proofs_C17b_ParseX_Ty Proofs_C17b_ParseX Proofs_C17b_ParseX_Thm Proofs_C17b_ParseX_Array Proofs_C17b_ParseX_Agree Proofs_C17b_ParseX_Img Proofs_C17b_ParseX_Exact Proofs_C17b_ParseX_Bytes Proofs_C17b_FormText Proofs_C17b_ArrayForm Proofs_C17b_Json Proofs_C17b_JsonExamples Proofs_C17b_JsonLoose Proofs_C17b_JsonIn Proofs_C17b_JsonIn2 Proofs_C17b_Elem Proofs_C17b_ElemRange Proofs_C17b_ElemField Proofs_C17b_ElemAt Proofs_C17b_ElemList Proofs_C17b_ElemMore Proofs_C17b_ElemClass Proofs_C17b_ElemSlice Proofs_C17b_ElemForm Proofs_C17b_ElemTight Proofs_C17b_Query Proofs_C17b_QueryLaws Proofs_C17b_QueryVal Proofs_C17b_QueryCons Proofs_C17b_QueryBranch Proofs_C17b_QueryVal2 Lark Proofs_C17b_Lark Proofs_C17b_LarkExamples Proofs_C17b_LarkModes Proofs_C17b_LarkCat Proofs_C17b_LarkParams Proofs_C17b_LarkParamTypes.
 Import ListNotations.
 Open Scope Z_scope.
 
@@ -75,3 +78,1043 @@ Theorem type_print_parse_roundtrip : forall t,
   printable t = true -> type_parse (type_tostring t) = Ok t.
 Proof. exact type_print_parse_roundtrip_thm. Qed.
 Print Assumptions type_print_parse_roundtrip.
+
+(* ===================================================================== C17b: exact *)
+(* (d1) Everything the reference parser returns lies in the fragment: a string of bytes that parses, parses to a printable type. *)
+Theorem type_parse_printable : forall s t, key_ok s = true -> type_parse s = Ok t -> printable t = true.
+Proof. exact type_parse_printable_thm. Qed.
+Print Assumptions type_parse_printable.
+
+(* (d2) A printable type prints to a string of bytes. *)
+Theorem printable_key_ok : forall t, printable t = true -> key_ok (type_tostring t) = true.
+Proof. exact printable_key_ok_thm. Qed.
+Print Assumptions printable_key_ok.
+
+(* (d3) EXACTNESS of the fragment of (d): a type is printable if and only if it prints to a byte string that the reference
+   parser brings back unchanged (witnesses for every excluded shape: Proofs_C17b_Witness.v). *)
+Theorem printable_iff_roundtrip : forall t,
+  printable t = true <-> (key_ok (type_tostring t) = true /\ type_parse (type_tostring t) = Ok t).
+Proof. exact printable_iff_roundtrip_thm. Qed.
+Print Assumptions printable_iff_roundtrip.
+
+Theorem type_roundtrip_exact : forall t, key_ok (type_tostring t) = true ->
+  (type_parse (type_tostring t) = Ok t <-> printable t = true).
+Proof. exact type_roundtrip_exact_thm. Qed.
+Print Assumptions type_roundtrip_exact.
+
+(* (d4) A type outside the fragment never comes back. *)
+Theorem not_printable_no_roundtrip : forall t, key_ok (type_tostring t) = true -> printable t = false ->
+  type_parse (type_tostring t) <> Ok t.
+Proof. exact not_printable_no_roundtrip_thm. Qed.
+Print Assumptions not_printable_no_roundtrip.
+
+(* (d5) What the parser accepts denotes a type that survives a further print / parse (parse . print . parse = parse). *)
+Theorem type_parse_print_parse : forall s t, key_ok s = true -> type_parse s = Ok t -> type_parse (type_tostring t) = Ok t.
+Proof. exact type_parse_print_parse_thm. Qed.
+Print Assumptions type_parse_print_parse.
+
+(* (d6) The printer is injective on the fragment (outside it is not: tostring_*_not_injective in Proofs_C17b_Witness.v). *)
+Theorem type_tostring_injective : forall t1 t2,
+  printable t1 = true -> printable t2 = true -> type_tostring t1 = type_tostring t2 -> t1 = t2.
+Proof. exact type_tostring_injective_thm. Qed.
+Print Assumptions type_tostring_injective.
+
+(* (d7) The round trip for ARRAYS: the type (Form::type of Content::form, default typestrs string/bytes/char/byte) of every
+   layout whose parameters are the ones the library sets itself (tp_ok: __array__ = string / bytestring on a list of
+   char / byte, char / byte on 1-d uint8, __record__ = a name on a record; non-negative sizes; one byte-string key per
+   field) is printable, survives Type::tostring followed by the reference parser, and erases to the layout's core type. *)
+Theorem array_type_printable : forall c, tp_ok c = true ->
+  exists t, type_of_form default_typestrs (form_of c) = Ok t /\ printable t = true.
+Proof. exact array_type_printable_thm. Qed.
+Print Assumptions array_type_printable.
+
+Theorem array_type_roundtrip : forall c, Valid None c -> tp_ok c = true ->
+  exists t, type_of_form default_typestrs (form_of c) = Ok t /\ type_parse (type_tostring t) = Ok t /\ erase t = type_of c.
+Proof. exact array_type_roundtrip_valid_thm. Qed.
+Print Assumptions array_type_roundtrip.
+
+(* ===================================================================== C17b: parsex *)
+(* ParseX stage 1: the reference JSON parser json_parse inverts the compact printer json_print on the fragment json_ok (strings/keys with bytes 0..255; any integer; JDbl whose text is a number token over digits . e E + - starting with a digit or '-' and containing '.', 'e' or 'E', i.e. every text rj::Writer emits for a finite non-integral double; nested arrays/objects), with any continuation that starts with , ] } or is empty, for any fuel >= json_size. *)
+Theorem json_print_parse_x : forall j, json_ok j = true -> forall fuel rest, (json_size j <= fuel)%nat -> jfollow_ok rest ->
+  json_parse fuel (json_print j ++ rest) = Ok (j, rest).
+Proof. exact json_print_parse. Qed.
+Print Assumptions json_print_parse_x.
+(* ParseX stage 1: top-level JSON round trip (fuel = text length + 1, nothing may remain). *)
+Theorem json_roundtrip_x : forall j, json_ok j = true -> json_parse_top (json_print j) = Ok j.
+Proof. exact json_roundtrip. Qed.
+Print Assumptions json_roundtrip_x.
+(* ParseX stage 2: the text parameters={"k": v, ...} printed by string_parameters is parsed back by params_parse, for every non-empty sorted parameter map without the key __categorical__ (which string_parameters filters out), keys byte strings, values in json_ok; any continuation. params_parse rejects parameters={} (only printed when the single entry is __categorical__ with a value other than true). *)
+Theorem string_parameters_parse_x : forall p rest, params_ok p = true ->
+  params_parse (string_parameters p ++ rest) = Ok (p, rest).
+Proof. exact string_parameters_parse. Qed.
+Print Assumptions string_parameters_parse_x.
+(* ParseX stage 3: the extended reference parser type_parse_x (parameters in every bracket spelling, categorical[type=T], arbitrary JSON parameter values in json_ok, doubles included) inverts Type::tostring on printable_x: no typestr except the four hardcoded types (possibly categorical), sorted parameter maps with byte-string keys and json_ok values, __categorical__ only with the value true, record names as in printable, regular sizes >= 0, no parameterised empty union. *)
+Theorem type_print_parse_roundtrip_x_thm : forall t, printable_x t = true -> type_parse_x (type_tostring t) = Ok t.
+Proof. exact type_print_parse_roundtrip_x. Qed.
+Print Assumptions type_print_parse_roundtrip_x_thm.
+(* ParseX stage 3: the extended fragment contains the fragment of the frozen parser. *)
+Theorem printable_x_extends_thm : forall t, printable t = true -> printable_x t = true.
+Proof. exact printable_x_extends. Qed.
+Print Assumptions printable_x_extends_thm.
+(* ParseX stage 4: Type::tostring is injective on printable_x (corollary of the round trip). *)
+Theorem type_tostring_injective_x_thm : forall t1 t2, printable_x t1 = true -> printable_x t2 = true ->
+  type_tostring t1 = type_tostring t2 -> t1 = t2.
+Proof. exact type_tostring_injective_x. Qed.
+Print Assumptions type_tostring_injective_x_thm.
+(* ParseX arrays: with the empty typestr table, the type (Form::type of Content::form) of every layout passing tpx_ok (Par nodes anywhere: strings, chars, categorical over Indexed/IndexedOption/anything, names on any node; Numpy shapes non-empty with inner dims >= 0, regular sizes >= 0, record keys byte strings one per field, names byte strings; each node's own type passes top_ok: a record printed as Name[...] has a proper non-reserved name and is no empty tuple, a union with parameters has contents) is in printable_x and survives Type::tostring followed by type_parse_x. *)
+Theorem array_type_roundtrip_x_thm : forall c, tpx_ok c = true ->
+  exists t, type_of_form [] (form_of c) = Ok t /\ printable_x t = true /\ type_parse_x (type_tostring t) = Ok t.
+Proof. exact array_type_roundtrip_x. Qed.
+Print Assumptions array_type_roundtrip_x_thm.
+(* ParseX agreement: the extended reference parser returns the same type as the frozen reference parser wherever the latter succeeds. *)
+Theorem type_parse_x_agrees_thm : forall s t, type_parse s = Ok t -> type_parse_x s = Ok t.
+Proof. exact type_parse_x_agrees. Qed.
+Print Assumptions type_parse_x_agrees_thm.
+(* ParseX exactness, JSON layer: every value the reference JSON parser returns on a byte string is in json_ok (so json_ok is exactly the set of values that survive json_print / json_parse_top, up to byte-string texts). *)
+Theorem json_parse_top_img_thm : forall s j, key_ok s = true -> json_parse_top s = Ok j -> json_ok j = true.
+Proof. exact json_parse_top_img. Qed.
+Print Assumptions json_parse_top_img_thm.
+(* ParseX exactness, parameters layer: every parameter map params_parse returns on a byte string is in params_ok. *)
+Theorem params_parse_img_thm : forall s q r, params_parse s = Ok (q, r) -> key_ok s = true -> params_ok q = true /\ key_ok r = true.
+Proof. exact params_parse_img. Qed.
+Print Assumptions params_parse_img_thm.
+(* ParseX exactness: printable_x splits into the structural part pstruct and the record-spelling part names_ok (key counts; a record the printer spells Name[...] has a proper non-reserved name and is no empty tuple). *)
+Theorem printable_x_iff_thm : forall t, printable_x t = true <-> pstruct t = true /\ names_ok t = true.
+Proof. exact printable_x_iff. Qed.
+Print Assumptions printable_x_iff_thm.
+(* ParseX exactness: everything type_parse_x returns on a byte string satisfies pstruct. *)
+Theorem type_parse_x_img_thm : forall s t, key_ok s = true -> type_parse_x s = Ok t -> pstruct t = true.
+Proof. exact type_parse_x_img. Qed.
+Print Assumptions type_parse_x_img_thm.
+(* ParseX exactness: printable_x is exactly the set of consistently spelled types (names_ok) that come back from their own text; names_ok cannot be dropped (names_ok_needed_refuted, image_not_printable_x_refuted). *)
+Theorem printable_x_exact_thm : forall t, key_ok (type_tostring t) = true ->
+  (printable_x t = true <-> type_parse_x (type_tostring t) = Ok t /\ names_ok t = true).
+Proof. exact printable_x_exact. Qed.
+Print Assumptions printable_x_exact_thm.
+(* ParseX bytes: every type of printable_x prints to a byte string (parameters, JSON values incl. negative integers and double texts, record names). *)
+Theorem printable_x_key_ok_thm : forall t, printable_x t = true -> key_ok (type_tostring t) = true.
+Proof. exact printable_x_key_ok. Qed.
+Print Assumptions printable_x_key_ok_thm.
+(* ParseX characterisation: printable_x is exactly "prints to a byte string that type_parse_x brings back, with records spelled consistently (names_ok)". *)
+Theorem printable_x_characterised_thm : forall t,
+  printable_x t = true <->
+  key_ok (type_tostring t) = true /\ type_parse_x (type_tostring t) = Ok t /\ names_ok t = true.
+Proof. exact printable_x_characterised. Qed.
+Print Assumptions printable_x_characterised_thm.
+
+(* ===================================================================== C17b: formtext *)
+(* (c1) The JSON of a form whose strings are byte strings and whose parameters hold only doubles printed as a number token with fraction or exponent (form_text_ok) lies in the
+   fragment json_ok on which the reference JSON reader inverts rj::Writer's compact text. *)
+Theorem form_json_ok : forall f v, form_text_ok f = true -> json_ok (form_tojson v f) = true.
+Proof. exact form_json_ok_thm. Qed.
+Print Assumptions form_json_ok.
+
+(* (c2) Form -> JSON TEXT -> Form: the round trip of (c) at the level of the text (compact and verbose key sets). *)
+Theorem form_text_roundtrip : forall f v, form_wf f = true -> form_text_ok f = true ->
+  form_fromtext (form_totext v f) = Ok f.
+Proof. exact form_text_roundtrip_thm. Qed.
+Print Assumptions form_text_roundtrip.
+
+(* (c3) The text determines the form, across verbosities (false outside form_text_ok: the double text "1" and the integer 1 print alike,
+   Proofs_C17b_JsonExamples.form_text_injective_refuted). *)
+Theorem form_text_injective : forall f g v w,
+  form_wf f = true -> form_text_ok f = true -> form_wf g = true -> form_text_ok g = true ->
+  form_totext v f = form_totext w g -> f = g.
+Proof. exact form_text_injective_thm. Qed.
+Print Assumptions form_text_injective.
+
+(* (c4) The round trip for ARRAYS: the form (Content::form) of every layout whose dimensions and regular sizes fit an int and whose
+   record keys / names are NUL-free byte strings (jf_ok) is a form of an existing node class (form_wf) and survives
+   Form::tojson / Form::fromjson as a JSON value and as JSON text, compact and verbose; outside: a dimension >= 2^31 (read with
+   IsInt()), a NUL in a key (Proofs_C17b_ArrayForm.big_dimension_refuted, nul_key_refuted). *)
+Theorem array_form_wf : forall c, jf_ok c = true -> form_wf (form_of c) = true.
+Proof. exact array_form_wf_thm. Qed.
+Print Assumptions array_form_wf.
+
+Theorem array_form_json_roundtrip : forall c v, jf_ok c = true -> form_fromjson (form_tojson v (form_of c)) = Ok (form_of c).
+Proof. exact array_form_json_roundtrip_thm. Qed.
+Print Assumptions array_form_json_roundtrip.
+
+Theorem array_form_text_roundtrip : forall c v, jf_ok c = true -> form_fromtext (form_totext v (form_of c)) = Ok (form_of c).
+Proof. exact array_form_text_roundtrip_thm. Qed.
+Print Assumptions array_form_text_roundtrip.
+
+Theorem array_form_text_injective : forall c d v w, jf_ok c = true -> jf_ok d = true ->
+  form_totext v (form_of c) = form_totext w (form_of d) -> form_of c = form_of d.
+Proof. exact array_form_text_injective_thm. Qed.
+Print Assumptions array_form_text_injective.
+
+(* ===================================================================== C17b: json *)
+(* C17b (Form -> JSON -> Form), complete characterisation: for EVERY form, Form::fromjson of Form::tojson either fails (exactly when form_parses is false) or returns form_canon of the form *)
+Theorem form_roundtrip_characterised : forall f verbose,
+  form_fromjson (form_tojson verbose f) = if form_parses f then Ok (form_canon f) else Err EValue.
+Proof. exact form_roundtrip_char. Qed.
+Print Assumptions form_roundtrip_characterised.
+
+(* C17b: Form::tojson is injective on well-formed forms, across verbosities *)
+Theorem form_json_injective : forall f g v w,
+  form_wf f = true -> form_wf g = true -> form_tojson v f = form_tojson w g -> f = g.
+Proof. exact form_json_injective_thm. Qed.
+Print Assumptions form_json_injective.
+
+(* C17b: verbose and compact JSON of ANY form read back identically (both fail or both give the same form) *)
+Theorem form_json_verbose_compact : forall f,
+  form_fromjson (form_tojson true f) = form_fromjson (form_tojson false f).
+Proof. exact form_json_verbose_compact_thm. Qed.
+Print Assumptions form_json_verbose_compact.
+
+(* C17b: exactness of the fragment: a form survives the round trip (either verbosity) iff it is well-formed *)
+Theorem form_roundtrip_iff_wf : forall f v, form_fromjson (form_tojson v f) = Ok f <-> form_wf f = true.
+Proof. exact form_roundtrip_iff_thm. Qed.
+Print Assumptions form_roundtrip_iff_wf.
+
+(* C17b: whatever form comes back from a round trip is well-formed, so a second round trip is the identity *)
+Theorem form_roundtrip_idempotent : forall f f' v,
+  form_fromjson (form_tojson v f) = Ok f' ->
+  form_wf f' = true /\ forall w, form_fromjson (form_tojson w f') = Ok f'.
+Proof. exact form_roundtrip_idempotent_thm. Qed.
+Print Assumptions form_roundtrip_idempotent.
+
+(* C17b: Form::type commutes with the JSON round trip on well-formed forms, for every typestr table *)
+Theorem form_type_commutes_with_fromjson : forall ts f v, form_wf f = true ->
+  exists f', form_fromjson (form_tojson v f) = Ok f' /\ type_of_form ts f' = type_of_form ts f.
+Proof. exact form_type_commutes_with_fromjson_thm. Qed.
+Print Assumptions form_type_commutes_with_fromjson.
+
+(* C17b: widened fragment form_wf_loose (NumpyForm format/itemsize free, e.g. "q" for int64; NUL allowed in form keys): the canonical form comes back; it is well-formed, has the same type and answers all depth/field queries as the original *)
+Theorem form_loose_roundtrip : forall ts f v, form_wf_loose f = true ->
+  exists f', form_fromjson (form_tojson v f) = Ok f' /\ f' = form_canon f /\ form_wf f' = true /\
+    type_of_form ts f' = type_of_form ts f /\
+    f_purelist_depth f' = f_purelist_depth f /\
+    f_minmax_depth f' = f_minmax_depth f /\
+    f_branch_depth f' = f_branch_depth f /\
+    f_purelist_isregular f' = f_purelist_isregular f /\
+    f_keys f' = f_keys f /\
+    f_numfields f' = f_numfields f.
+Proof. exact form_loose_roundtrip_thm. Qed.
+Print Assumptions form_loose_roundtrip.
+
+(* C17b: the widened fragment contains the well-formed forms *)
+Theorem form_wf_loose_contains_wf : forall f, form_wf f = true -> form_wf_loose f = true.
+Proof. exact form_wf_is_loose. Qed.
+Print Assumptions form_wf_loose_contains_wf.
+
+(* C17b: the canonical form of an accepted form is well-formed (form_canon lands in the fragment) *)
+Theorem form_canon_is_wf : forall f, form_parses f = true -> form_wf (form_canon f) = true.
+Proof. exact form_canon_wf. Qed.
+Print Assumptions form_canon_is_wf.
+
+(* C17b: OPEN FINDING form-roundtrip-noncanonical-format: a NumpyForm given with format "q" for int64 comes back with "l" (both verbosities) *)
+Theorem form_noncanonical_format_counterexample : forall v,
+  form_fromjson (form_tojson v (FNumpy meta0 [] 8 [113] (FD DInt64))) = Ok (FNumpy meta0 [] 8 [108] (FD DInt64)) /\
+  Ok (FNumpy meta0 [] 8 [108] (FD DInt64)) <> Ok (FNumpy meta0 [] 8 [113] (FD DInt64)).
+Proof. exact form_noncanonical_format_refuted. Qed.
+Print Assumptions form_noncanonical_format_counterexample.
+
+(* C17b (fromjson on arbitrary JSON): every form Form::fromjson returns has std::map parameters (sorted, NUL-free keys), NUL-free form/record keys, as many record keys as contents, int32 sizes/itemsize/inner_shape, and NumpyForm dtype = format_to_dtype format itemsize *)
+Theorem form_fromjson_image : forall j f, form_fromjson j = Ok f -> form_img f = true.
+Proof. exact form_fromjson_image_thm. Qed.
+Print Assumptions form_fromjson_image.
+
+(* C17b: a form returned by fromjson is well-formed exactly when its index widths are those of an existing class and its NumpyForm format/itemsize are canonical for a primitive dtype (shape_ok) *)
+Theorem form_fromjson_wf_iff : forall j f, form_fromjson j = Ok f -> (form_wf f = true <-> shape_ok f = true).
+Proof. exact form_fromjson_wf_iff_thm. Qed.
+Print Assumptions form_fromjson_wf_iff.
+
+(* C17b: fromjson . tojson . fromjson = fromjson holds exactly on shape_ok results *)
+Theorem form_fromjson_reprint_iff : forall j f v, form_fromjson j = Ok f ->
+  (form_fromjson (form_tojson v f) = Ok f <-> shape_ok f = true).
+Proof. exact form_fromjson_reprint_iff_thm. Qed.
+Print Assumptions form_fromjson_reprint_iff.
+
+(* C17b (fromjson on arbitrary JSON): two objects agreeing on the first occurrence of every member name fromjson looks up (is_node_key) are read alike *)
+Theorem fromjson_node_ext : forall m m',
+  (forall k, is_node_key k = true -> jfind k m = jfind k m') -> form_fromjson (JObj m) = form_fromjson (JObj m').
+Proof. exact fromjson_node_ext_thm. Qed.
+Print Assumptions fromjson_node_ext.
+
+(* C17b: member order of a node is irrelevant when member names are distinct *)
+Theorem fromjson_member_order : forall m m', Permutation.Permutation m m' -> NoDup (map fst m) ->
+  form_fromjson (JObj m) = form_fromjson (JObj m').
+Proof. exact fromjson_member_order_thm. Qed.
+Print Assumptions fromjson_member_order.
+
+(* C17b: a member whose name fromjson never looks up is ignored, wherever it stands in the node *)
+Theorem fromjson_extra_member : forall m1 m2 k0 v, is_node_key k0 = false ->
+  form_fromjson (JObj (m1 ++ (k0, v) :: m2)) = form_fromjson (JObj (m1 ++ m2)).
+Proof. exact fromjson_extra_member_thm. Qed.
+Print Assumptions fromjson_extra_member.
+
+(* C17b: a repeated member name: every occurrence after the first is ignored *)
+Theorem fromjson_duplicate_member : forall m1 m2 k0 v, jfind k0 m1 <> None ->
+  form_fromjson (JObj (m1 ++ (k0, v) :: m2)) = form_fromjson (JObj (m1 ++ m2)).
+Proof. exact fromjson_duplicate_member_thm. Qed.
+Print Assumptions fromjson_duplicate_member.
+
+(* C17b: Index::str2form returns the first of i8,u8,i32,u32,i64 of which the given string is a prefix (strncmp with str.length()): abbreviations and the empty string are accepted *)
+Theorem str2form_prefix : forall s,
+  str2form s = match find (fun o => is_prefix s (form2str o)) iform_order with Some o => Ok o | None => Err EValue end.
+Proof. exact str2form_prefix_thm. Qed.
+Print Assumptions str2form_prefix.
+
+(* C17b: the empty index string is accepted as i8 *)
+Theorem str2form_empty_string_is_i8 : str2form [] = Ok Fi8.
+Proof. exact str2form_empty_string. Qed.
+Print Assumptions str2form_empty_string_is_i8.
+
+(* C17b: a class name that fixes the index type returns that type or fails (a conflicting index string is an error) *)
+Theorem get_iform_preset_agrees : forall p field m o, get_iform (Some p) field m = Ok o -> o = p.
+Proof. exact get_iform_preset. Qed.
+Print Assumptions get_iform_preset_agrees.
+
+(* C17b: has_identifier, when present, decides the identities flag (has_identities is not consulted) *)
+Theorem has_identifier_wins : forall m b, jfind k_has_identifier m = Some (JBool b) -> get_hid m = Ok b.
+Proof. exact get_hid_identifier_wins. Qed.
+Print Assumptions has_identifier_wins.
+
+(* C17b: missing has_identifier/has_identities/parameters/form_key default to false / {} / None *)
+Theorem fromjson_meta_defaults : forall m,
+  jfind k_has_identifier m = None -> jfind k_has_identities m = None -> jfind k_parameters m = None ->
+  jfind k_form_key m = None -> get_meta m = Ok meta0.
+Proof. exact get_meta_defaults. Qed.
+Print Assumptions fromjson_meta_defaults.
+
+(* ===================================================================== C17b: elem *)
+(* (e1) getitem_at: the element at any position of a valid array matches (item_matches: None / scalar of the dtype / record of the erased record type / list whose elements all have the erased item type, or string unit over a char resp. byte leaf) one of the item types that item_types lists for the array's form -- all node classes. *)
+Theorem getitem_at_type : forall c vs i v ts l,
+  Valid None c -> to_list c = Ok vs -> get vs i = Ok v -> item_types ts (form_of c) = Ok l ->
+  existsb (fun it => item_matches it v) l = true.
+Proof. exact getitem_at_type_thm. Qed.
+Print Assumptions getitem_at_type.
+
+(* (e1') the same for all elements at once, with the existence of the item list. *)
+Theorem elements_match_items : forall c vs ts,
+  Valid None c -> to_list c = Ok vs ->
+  exists l, item_types ts (form_of c) = Ok l /\ Forall (fun v => existsb (fun it => item_matches it v) l = true) vs.
+Proof. exact elements_match_items_thm. Qed.
+Print Assumptions elements_match_items.
+
+(* (e2) item_types never fails on the form of a layout whose NumpyArray nodes have a dimension (in particular every valid layout). *)
+Theorem item_types_total : forall ts c, np_ok c = true -> exists l, item_types ts (form_of c) = Ok l.
+Proof. exact item_types_total_thm. Qed.
+Print Assumptions item_types_total.
+
+(* (e3) an array whose form has no item types (EmptyArray, also below IndexedArray / parameter nodes) has no elements. *)
+Theorem no_items_no_elements : forall c vs ts,
+  Valid None c -> to_list c = Ok vs -> item_types ts (form_of c) = Ok [] -> vs = [].
+Proof. exact no_items_no_elements_thm. Qed.
+Print Assumptions no_items_no_elements.
+
+Theorem empty_array_items : forall ts, item_types ts (form_of Empty) = Ok [] /\ to_list Empty = Ok [].
+Proof. exact empty_array_items_thm. Qed.
+Print Assumptions empty_array_items.
+
+(* (e4) nothing has the unknown type: an array of unknown type has no elements; lists of unknown are all empty; option of unknown holds only None. *)
+Theorem unknown_type_no_elements : forall c vs,
+  Valid None c -> to_list c = Ok vs -> type_of c = TUnk -> vs = [].
+Proof. exact unknown_type_no_elements_thm. Qed.
+Print Assumptions unknown_type_no_elements.
+
+Theorem list_of_unknown_all_empty : forall c vs sz,
+  Valid None c -> to_list c = Ok vs -> type_of c = TList sz None TUnk -> Forall (fun v => v = VList []) vs.
+Proof. exact list_of_unknown_all_empty_thm. Qed.
+Print Assumptions list_of_unknown_all_empty.
+
+Theorem option_of_unknown_all_none : forall c vs,
+  Valid None c -> to_list c = Ok vs -> type_of c = TOpt TUnk -> Forall (fun v => v = VNone) vs.
+Proof. exact option_of_unknown_all_none_thm. Qed.
+Print Assumptions option_of_unknown_all_none.
+
+(* (f1) Gathering by an index (carry), hence range slicing, keeps Form::type with ALL parameters (not only the erased core type), for every table of typestrs -- all node classes, no validity needed. *)
+Theorem carry_preserves_rtype : forall ts c ix c',
+  carry c ix = Ok c' -> type_of_form ts (form_of c') = type_of_form ts (form_of c).
+Proof. exact carry_preserves_rtype_thm. Qed.
+Print Assumptions carry_preserves_rtype.
+
+Theorem getitem_range_preserves_rtype : forall ts c a b c',
+  crange c a b = Ok c' -> type_of_form ts (form_of c') = type_of_form ts (form_of c).
+Proof. exact crange_preserves_rtype_thm. Qed.
+Print Assumptions getitem_range_preserves_rtype.
+
+(* (f2) ... hence the printed type string is unchanged by range slicing. *)
+Theorem getitem_range_preserves_typestring : forall ts c a b c',
+  crange c a b = Ok c' ->
+  rmap type_tostring (type_of_form ts (form_of c')) = rmap type_tostring (type_of_form ts (form_of c)).
+Proof. exact crange_preserves_typestring_thm. Qed.
+Print Assumptions getitem_range_preserves_typestring.
+
+(* (f3) ... and so are the item types an element may have. *)
+Theorem carry_preserves_item_types : forall ts c ix c',
+  carry c ix = Ok c' -> item_types ts (form_of c') = item_types ts (form_of c).
+Proof. exact carry_preserves_item_types_thm. Qed.
+Print Assumptions carry_preserves_item_types.
+
+(* (f4) The Form itself is kept up to the node classes carry rewrites (form_norm: ListOffsetForm ~ ListForm, BitMaskedForm ~ ByteMaskedForm; parameters, keys, index widths, sizes, inner shapes, dtypes all kept); Form::type and the item types do not see form_norm. Plain equality of forms is false (Proofs_C17b_ElemRange.carry_preserves_form_refuted). *)
+Theorem carry_preserves_form : forall c ix c',
+  carry c ix = Ok c' -> form_norm (form_of c') = form_norm (form_of c).
+Proof. exact (fun c ix c' H => carry_preserves_form_norm c ix c' H None None). Qed.
+Print Assumptions carry_preserves_form.
+
+Theorem type_of_form_ignores_norm : forall ts f, type_of_form ts (form_norm f) = type_of_form ts f.
+Proof. exact type_of_form_norm. Qed.
+Print Assumptions type_of_form_ignores_norm.
+
+Theorem item_types_ignores_norm : forall ts f, item_types ts (form_norm f) = item_types ts f.
+Proof. exact item_types_norm. Qed.
+Print Assumptions item_types_ignores_norm.
+
+(* (f5) n-d NumpyArray: a range slice keeps the dtype and EVERY inner dimension (zero dimensions included), the leading dimension becomes b - a (also when empty: a[2:2] of a 3x2 array is 0 x 2), the buffer holds exactly (b-a) rows. *)
+Theorem crange_numpy_shape : forall dt n dims data a b c',
+  a <= b -> crange (Numpy dt (n :: dims) data) a b = Ok c' ->
+  exists data', c' = Numpy dt ((b - a) :: dims) data' /\ zlen data' = (b - a) * prodZ dims.
+Proof. exact crange_numpy_shape_thm. Qed.
+Print Assumptions crange_numpy_shape.
+
+Theorem carry_numpy_shape : forall dt n dims data ix c',
+  carry (Numpy dt (n :: dims) data) ix = Ok c' ->
+  exists data', c' = Numpy dt (zlen ix :: dims) data' /\ zlen data' = zlen ix * prodZ dims.
+Proof. exact carry_numpy_shape_thm. Qed.
+Print Assumptions carry_numpy_shape.
+
+Theorem crange_numpy_total : forall dt n dims data a b,
+  Valid None (Numpy dt (n :: dims) data) -> 0 <= a -> a <= b -> b <= n ->
+  exists data', crange (Numpy dt (n :: dims) data) a b = Ok (Numpy dt ((b - a) :: dims) data') /\
+                zlen data' = (b - a) * prodZ dims.
+Proof. exact crange_numpy_total_thm. Qed.
+Print Assumptions crange_numpy_total.
+
+(* (f6) RegularArray: a range slice keeps the size (size 0 included: the length b - a is then carried by zeros_length). *)
+Theorem crange_regular_size : forall c size zl a b c',
+  a <= b -> crange (Regular c size zl) a b = Ok c' -> exists c'', c' = Regular c'' size (b - a).
+Proof. exact crange_regular_size_thm. Qed.
+Print Assumptions crange_regular_size.
+
+(* (f7) The length of a gather is the length of the index for every node class, as soon as no RegularArray size is negative (reg_nonneg; implied by validity). *)
+Theorem carry_len : forall c ix c', reg_nonneg c = true -> carry c ix = Ok c' -> clen c' = zlen ix.
+Proof. exact carry_len_thm. Qed.
+Print Assumptions carry_len.
+
+(* (f8) The length of c[a:b] is b - a whenever the slice exists on a valid layout: every node class. *)
+Theorem crange_len : forall c a b c', Valid None c -> a <= b -> crange c a b = Ok c' -> clen c' = b - a.
+Proof. exact crange_len_thm. Qed.
+Print Assumptions crange_len.
+
+(* (f9) Everything about c[a:b] in one statement: for 0 <= a <= b <= len it exists, is valid, has length b - a, its elements are the slice of the elements and have the ORIGINAL item type; the core type, Form::type with parameters and the item types are unchanged. *)
+Theorem range_slice : forall c vs a b,
+  Valid None c -> to_list c = Ok vs -> 0 <= a -> a <= b -> b <= clen c ->
+  exists c' ws, crange c a b = Ok c' /\ Valid None c' /\ clen c' = b - a /\
+    slice vs a b = Ok ws /\ to_list c' = Ok ws /\ Forall (has_type (type_of c)) ws /\
+    type_of c' = type_of c /\
+    (forall ts, type_of_form ts (form_of c') = type_of_form ts (form_of c)) /\
+    (forall ts, item_types ts (form_of c') = item_types ts (form_of c)).
+Proof. exact range_slice_thm. Qed.
+Print Assumptions range_slice.
+
+(* (g1) array["k"]: the layout produced by field_content has exactly the projected type (through lists, options, IndexedArray, parameter nodes); every node class, no validity needed. *)
+Theorem getitem_field_type : forall k c c',
+  field_content k c = Ok c' -> proj_ty k (type_of c) = Ok (type_of c').
+Proof. exact field_content_type_thm. Qed.
+Print Assumptions getitem_field_type.
+
+(* (g2) array[["k1", "k2", ...]] likewise. *)
+Theorem getitem_fields_type : forall ks c c',
+  fields_content ks c = Ok c' -> projs_ty ks (type_of c) = Ok (type_of c').
+Proof. exact fields_content_type_thm. Qed.
+Print Assumptions getitem_fields_type.
+
+(* (g3) value level and type level together on a valid array: the result has the projected type and its elements are the projected elements. *)
+Theorem getitem_field_typed_values : forall k c vs c',
+  Valid None c -> to_list c = Ok vs -> field_content k c = Ok c' ->
+  proj_ty k (type_of c) = Ok (type_of c') /\
+  exists ws, to_list c' = Ok ws /\ mapM (proj_v k (type_of c)) vs = Ok ws.
+Proof. exact getitem_field_type_thm. Qed.
+Print Assumptions getitem_field_typed_values.
+
+(* (g4) the projection succeeds exactly when the type has the field; otherwise it is a value error. *)
+Theorem getitem_field_iff : forall k c vs,
+  Valid None c -> to_list c = Ok vs ->
+  match field_content k c with
+  | Ok c' => proj_ty k (type_of c) = Ok (type_of c')
+  | Err e => e = EValue /\ proj_ty k (type_of c) = Err EValue
+  end.
+Proof. exact getitem_field_iff_thm. Qed.
+Print Assumptions getitem_field_iff.
+
+(* (h1) array[i] in the slicing model (presented as a length-1 array holding the element) is the gather of the wrapped index. *)
+Theorem getitem_at_model_is_carry : forall i c,
+  getitem_model [Ops_Getitem.IAt i] c = (do j <- wrap_at (clen c) i; carry c [j]).
+Proof. exact getitem_at_model_thm. Qed.
+Print Assumptions getitem_at_model_is_carry.
+
+(* (h2) ... so it keeps the core type, Form::type with all parameters and the item types, and has length 1. *)
+Theorem getitem_at_model_type : forall i c c',
+  getitem_model [Ops_Getitem.IAt i] c = Ok c' ->
+  type_of c' = type_of c /\
+  (forall ts, type_of_form ts (form_of c') = type_of_form ts (form_of c)) /\
+  (forall ts, item_types ts (form_of c') = item_types ts (form_of c)) /\
+  (reg_nonneg c = true -> clen c' = 1).
+Proof. exact getitem_at_model_type_thm. Qed.
+Print Assumptions getitem_at_model_type.
+
+(* (h3) on a valid array and -len <= i < len: the result exists, is valid, holds exactly element i (i + len when negative), which has the array's item type and matches one of the item types of the array's form. *)
+Theorem getitem_at_model_elem : forall i c vs,
+  Valid None c -> to_list c = Ok vs -> - clen c <= i < clen c ->
+  exists c' v, getitem_model [Ops_Getitem.IAt i] c = Ok c' /\ Valid None c' /\ to_list c' = Ok [v] /\
+    get vs (if i <? 0 then i + clen c else i) = Ok v /\
+    has_type (type_of c) v /\ type_of c' = type_of c /\
+    forall ts l, item_types ts (form_of c) = Ok l -> existsb (fun it => item_matches it v) l = true.
+Proof. exact getitem_at_model_elem_thm. Qed.
+Print Assumptions getitem_at_model_elem.
+
+(* (h4) outside [-len, len) it is a value error. *)
+Theorem getitem_at_model_oob : forall i c,
+  ~ (- clen c <= i < clen c) -> getitem_model [Ops_Getitem.IAt i] c = Err EValue.
+Proof. exact getitem_at_model_oob_thm. Qed.
+Print Assumptions getitem_at_model_oob.
+
+(* (g5) every element taken out of array["k"] has the item type the field array's type promises (needs no validity of the projected layout); value-level: projecting a typed value gives a value of the projected type. *)
+Theorem getitem_field_elements_typed : forall k c vs c',
+  Valid None c -> to_list c = Ok vs -> field_content k c = Ok c' ->
+  exists ws, to_list c' = Ok ws /\ Forall (has_type (type_of c')) ws.
+Proof. exact getitem_field_elements_typed_thm. Qed.
+Print Assumptions getitem_field_elements_typed.
+
+Theorem field_projection_typed : forall k t t' v w,
+  proj_ty k t = Ok t' -> has_typeb t v = true -> proj_v k t v = Ok w -> has_typeb t' w = true.
+Proof. exact proj_v_typed. Qed.
+Print Assumptions field_projection_typed.
+
+(* (e5) the element of a list-type array AS AN ARRAY (ListOffsetArray / ListArray / RegularArray): element i is the range slice elem_array c i of the content between the node's bounds; it is valid, its elements are the element's list, and its Form::type with parameters is exactly the IArray item that item_types lists for the array. *)
+Theorem list_element_is_array : forall c cc vs i v,
+  Valid None c -> list_content c = Some cc -> to_list c = Ok vs -> get vs i = Ok v ->
+  exists e l, elem_array c i = Ok e /\ Valid None e /\ to_list e = Ok l /\ v = VList l /\
+    type_of e = type_of cc /\
+    (forall ts, type_of_form ts (form_of e) = type_of_form ts (form_of cc)) /\
+    (forall ts, item_types ts (form_of c) = (do t <- type_of_form ts (form_of e); Ok [IArray t])).
+Proof. exact list_element_is_array_thm. Qed.
+Print Assumptions list_element_is_array.
+
+(* (e6) the element of an n-d NumpyArray AS AN ARRAY: element i is the i-th block of the buffer with the inner shape (numpy_elem), a (d-1)-dimensional array whose Form::type is exactly the IArray item that item_types lists; zero dimensions included. *)
+Theorem numpy_element_is_array : forall dt n d rest data vs i v,
+  to_list (Numpy dt (n :: d :: rest) data) = Ok vs -> get vs i = Ok v ->
+  exists e l, numpy_elem (Numpy dt (n :: d :: rest) data) i = Ok e /\ to_list e = Ok l /\ v = VList l /\
+    type_of e = numpy_ty dt rest /\
+    forall ts, item_types ts (form_of (Numpy dt (n :: d :: rest) data)) =
+               (do t <- type_of_form ts (form_of e); Ok [IArray t]).
+Proof. exact numpy_element_is_array_thm. Qed.
+Print Assumptions numpy_element_is_array.
+
+(* (f10) range slicing and integer indexing commute: element i of c[a:b] (negative i from the end) is element a+i (b+i) of c -- same value, typed by c's item type, same Form::type with parameters and same item types for the two results. *)
+Theorem range_then_at : forall c vs a b i,
+  Valid None c -> to_list c = Ok vs -> 0 <= a -> a <= b -> b <= clen c -> - (b - a) <= i < b - a ->
+  exists c' e1 e2 v,
+    crange c a b = Ok c' /\
+    getitem_model [Ops_Getitem.IAt i] c' = Ok e1 /\
+    getitem_model [Ops_Getitem.IAt (if i <? 0 then b + i else a + i)] c = Ok e2 /\
+    to_list e1 = Ok [v] /\ to_list e2 = Ok [v] /\
+    get vs (if i <? 0 then b + i else a + i) = Ok v /\ has_type (type_of c) v /\
+    type_of e1 = type_of e2 /\
+    (forall ts, type_of_form ts (form_of e1) = type_of_form ts (form_of e2)) /\
+    (forall ts, item_types ts (form_of e1) = item_types ts (form_of e2)).
+Proof. exact range_then_at_thm. Qed.
+Print Assumptions range_then_at.
+
+(* (e7) a missing value occurs only where the type allows it. *)
+Theorem none_only_if_type_allows : forall c vs,
+  Valid None c -> to_list c = Ok vs -> has_typeb (type_of c) VNone = false -> ~ In VNone vs.
+Proof. exact none_only_if_type_allows_thm. Qed.
+Print Assumptions none_only_if_type_allows.
+
+(* (e8) the item list is an over-approximation, not minimal: UnmaskedArray lists INone (its type is an option type) but never yields None when the content's type excludes it (Proofs_C17b_ElemMore.item_types_minimal_refuted, item_types_masked_empty; ex_items_all_hit shows a layout where every listed item is hit). *)
+Theorem unmasked_none_never_hit : forall c vs ts,
+  np_ok c = true -> to_list (Unmasked c) = Ok vs -> Valid None c -> has_typeb (type_of c) VNone = false ->
+  (exists l, item_types ts (form_of (Unmasked c)) = Ok (INone :: l)) /\ ~ In VNone vs.
+Proof. exact unmasked_none_never_hit_thm. Qed.
+Print Assumptions unmasked_none_never_hit.
+
+(* (e9) option nodes (IndexedOptionArray, ByteMaskedArray, BitMaskedArray, UnmaskedArray): element i is None exactly where the option index is negative, otherwise it is the content's element at that index, typed by the content's type and matching one of the content's items; the node's items are INone plus the content's. *)
+Theorem option_element : forall c vs i v,
+  is_option_node c = true -> Valid None c -> to_list c = Ok vs -> get vs i = Ok v ->
+  exists ix vs0 j, option_index c = Ok (ix, option_content c) /\ get ix i = Ok j /\
+    to_list (option_content c) = Ok vs0 /\
+    (if j <? 0 then v = VNone
+     else get vs0 j = Ok v /\ has_type (type_of (option_content c)) v /\
+          forall ts l, item_types ts (form_of (option_content c)) = Ok l -> existsb (fun it => item_matches it v) l = true) /\
+    (forall ts, item_types ts (form_of c) = (do l <- item_types ts (form_of (option_content c)); Ok (INone :: l))).
+Proof. exact option_element_thm. Qed.
+Print Assumptions option_element.
+
+(* (e10) IndexedArray: element i is the content's element index[i]; same type, same items. *)
+Theorem indexed_element : forall w ix c0 vs i v,
+  Valid None (Indexed w ix c0) -> to_list (Indexed w ix c0) = Ok vs -> get vs i = Ok v ->
+  exists j vs0, get ix i = Ok j /\ to_list c0 = Ok vs0 /\ get vs0 j = Ok v /\ has_type (type_of c0) v /\
+    type_of (Indexed w ix c0) = type_of c0 /\
+    forall ts, item_types ts (form_of (Indexed w ix c0)) = item_types ts (form_of c0).
+Proof. exact indexed_element_thm. Qed.
+Print Assumptions indexed_element.
+
+(* (e11) UnionArray: element i is element index[i] of the alternative tags[i]; it has THAT alternative's type and matches one of that alternative's items, which are among the union's items. *)
+Theorem union_element : forall w t ix cs vs i v,
+  Valid None (Union w t ix cs) -> to_list (Union w t ix cs) = Ok vs -> get vs i = Ok v ->
+  exists tg j ci vsi, get t i = Ok tg /\ get ix i = Ok j /\ get cs tg = Ok ci /\ Valid None ci /\
+    to_list ci = Ok vsi /\ get vsi j = Ok v /\ has_type (type_of ci) v /\
+    (forall ts l, item_types ts (form_of ci) = Ok l -> existsb (fun it => item_matches it v) l = true) /\
+    (forall ts l lu, item_types ts (form_of ci) = Ok l -> item_types ts (form_of (Union w t ix cs)) = Ok lu -> incl l lu).
+Proof. exact union_element_thm. Qed.
+Print Assumptions union_element.
+
+(* (e12) RecordArray: element i (0 <= i < length) is the record / tuple of the i-th elements of the fields; the single item is IRecord of the record array's own type. *)
+Theorem record_element : forall cs ks n vs i v,
+  Valid None (Record cs ks n) -> to_list (Record cs ks n) = Ok vs -> get vs i = Ok v ->
+  0 <= i < n /\
+  exists ws, mapM (fun c => do col <- to_list c; get col i) cs = Ok ws /\
+    v = match ks with Some k => VRec (zip k ws) | None => VTup ws end /\
+    has_type (type_of (Record cs ks n)) v /\
+    forall ts, item_types ts (form_of (Record cs ks n)) = (do t <- type_of_form ts (form_of (Record cs ks n)); Ok [IRecord t]).
+Proof. exact record_element_thm. Qed.
+Print Assumptions record_element.
+
+(* (f11) array[start:stop:step] in the slicing model -- any bounds, negative steps included -- is the gather of Python's index sequence, presented as the single element of a one-element list. *)
+Theorem getitem_range_model_is_carry : forall s e st c,
+  getitem_model [Ops_Getitem.IRange s e st] c =
+  if stepof st =? 0 then Err EValue else
+  if clen c <? 0 then Err EValue else
+  (do r <- carry c (py_indices (clen c) s e (stepof st));
+   Ok (ListOffset I64 [0; zlen (py_indices (clen c) s e (stepof st))] r)).
+Proof. exact getitem_range_model_thm. Qed.
+Print Assumptions getitem_range_model_is_carry.
+
+(* (f12) ... so EVERY Python range slice keeps the core type, Form::type with all parameters and the item types; its length is the number of selected positions. *)
+Theorem getitem_range_model_type : forall s e st c c',
+  getitem_model [Ops_Getitem.IRange s e st] c = Ok c' ->
+  exists r, c' = ListOffset I64 [0; zlen (py_indices (clen c) s e (stepof st))] r /\
+    carry c (py_indices (clen c) s e (stepof st)) = Ok r /\
+    type_of r = type_of c /\
+    (forall ts, type_of_form ts (form_of r) = type_of_form ts (form_of c)) /\
+    (forall ts, item_types ts (form_of r) = item_types ts (form_of c)) /\
+    (reg_nonneg c = true -> clen r = zlen (py_indices (clen c) s e (stepof st))).
+Proof. exact getitem_range_model_type_thm. Qed.
+Print Assumptions getitem_range_model_type.
+
+(* (f13) on a valid array every range slice with a non-zero step exists, is valid, holds exactly the selected elements, which have the ORIGINAL item type. *)
+Theorem getitem_range_model_total : forall s e st c vs,
+  Valid None c -> to_list c = Ok vs -> stepof st <> 0 ->
+  exists r ws, getitem_model [Ops_Getitem.IRange s e st] c = Ok (ListOffset I64 [0; zlen (py_indices (clen c) s e (stepof st))] r) /\
+    Valid None r /\ to_list r = Ok ws /\ mapM (get vs) (py_indices (clen c) s e (stepof st)) = Ok ws /\
+    Forall (has_type (type_of c)) ws /\ type_of r = type_of c /\
+    (forall ts, type_of_form ts (form_of r) = type_of_form ts (form_of c)).
+Proof. exact getitem_range_model_total_thm. Qed.
+Print Assumptions getitem_range_model_total.
+
+(* (g6) array["k"] at the level of Form::type WITH parameters: the result's type is proj_rty k of the array's type -- the field's own type with ALL its parameters and type strings, under list / regular / option constructors with empty parameters (the getitem_field methods drop the parameters of the nodes above the record, and the record's own). Every node class, no validity needed. *)
+Theorem getitem_field_rtype : forall ts k c c' t,
+  field_content k c = Ok c' -> type_of_form ts (form_of c) = Ok t ->
+  exists t', proj_rty k t = Ok t' /\ type_of_form ts (form_of c') = Ok t'.
+Proof. exact getitem_field_rtype_thm. Qed.
+Print Assumptions getitem_field_rtype.
+
+(* (e13) arrays of strings / bytestrings: every element is a string unit of the right kind; the single item is the uint8 leaf type carrying __array__ = "char" (resp. "byte") and the leaf node's own record name. *)
+Theorem string_element : forall k r c0 vs i v,
+  is_strk (Some k) = true -> Valid None (Par (Some k) r c0) -> to_list (Par (Some k) r c0) = Ok vs -> get vs i = Ok v ->
+  exists s rn, v = VStr (match k with AString => true | _ => false end) s /\
+    forall ts, item_types ts (form_of (Par (Some k) r c0)) =
+      Ok [IArray (RNum (params_of (Some (char_kind k)) rn) (gettypestr (params_of (Some (char_kind k)) rn) ts) (FD DUInt8))].
+Proof. exact string_element_thm. Qed.
+Print Assumptions string_element.
+
+(* (g7) array["k"] / array[["k1", ...]] in the slicing model are the layout-level projections (presented as the single element of a one-element regular list), so the result has the projected type -- core type and Form::type with parameters. *)
+Theorem getitem_field_model_type : forall k c c2,
+  getitem_model [Ops_Getitem.IField k] c = Ok c2 ->
+  exists c', c2 = Regular c' (clen c) 1 /\ field_content k c = Ok c' /\ proj_ty k (type_of c) = Ok (type_of c') /\
+    forall ts t, type_of_form ts (form_of c) = Ok t ->
+      exists t', proj_rty k t = Ok t' /\ type_of_form ts (form_of c') = Ok t'.
+Proof. exact getitem_field_model_type_thm. Qed.
+Print Assumptions getitem_field_model_type.
+
+Theorem getitem_fields_model_type : forall ks c c2,
+  getitem_model [Ops_Getitem.IFields ks] c = Ok c2 ->
+  exists c', c2 = Regular c' (clen c) 1 /\ fields_content ks c = Ok c' /\ projs_ty ks (type_of c) = Ok (type_of c').
+Proof. exact getitem_fields_model_type_thm. Qed.
+Print Assumptions getitem_fields_model_type.
+
+(* (f14) where a gather keeps the Form EXACTLY: no ListOffsetArray / BitMaskedArray among the nodes the gather rebuilds (carry_form_stable: it descends through RegularArray, ByteMaskedArray, UnmaskedArray, record fields and parameter nodes, and stops at ListArray / IndexedArray / IndexedOptionArray / UnionArray / leaves). *)
+Theorem carry_preserves_form_exact : forall c ix c',
+  carry_form_stable c = true -> carry c ix = Ok c' -> form_of c' = form_of c.
+Proof. exact (fun c ix c' Hs H => carry_preserves_form_exact_thm c Hs ix c' H None None). Qed.
+Print Assumptions carry_preserves_form_exact.
+
+(* (f15) the result of any gather is in that fragment, so from the second slice on the Form is exactly stable. *)
+Theorem second_slice_form_exact : forall c ix c1 ix2 c2,
+  carry c ix = Ok c1 -> carry c1 ix2 = Ok c2 -> form_of c2 = form_of c1.
+Proof. exact second_slice_form_exact_thm. Qed.
+Print Assumptions second_slice_form_exact.
+
+(* (g8) array[["k1", ...]] at the level of Form::type WITH parameters: the result's type is projs_rty ks of the array's type (selected field types kept with all their parameters; the record and the list / option nodes above it rebuilt with empty parameters, as getitem_fields does). *)
+Theorem getitem_fields_rtype : forall ts ks c c' t,
+  fields_content ks c = Ok c' -> type_of_form ts (form_of c) = Ok t ->
+  exists t', projs_rty ks t = Ok t' /\ type_of_form ts (form_of c') = Ok t'.
+Proof. exact getitem_fields_rtype_thm. Qed.
+Print Assumptions getitem_fields_rtype.
+
+(* (e14) the item list covers the whole item type: EVERY value of the array's item type (not only the actual elements) matches one of the listed items. The converse holds only up to the regular size, which is not part of an item (Proofs_C17b_ElemForm.items_converse_regular_refuted). *)
+Theorem items_cover_type : forall ts c,
+  Valid None c ->
+  exists l, item_types ts (form_of c) = Ok l /\
+            forall v, has_type (type_of c) v -> existsb (fun it => item_matches it v) l = true.
+Proof. exact items_cover_type_thm. Qed.
+Print Assumptions items_cover_type.
+
+(* (e15) soundness of the item list (converse of e14): a value matching one of the items listed for a valid array has the array's item type up to what an item does not record (relax: the regular size of a list item; the string unit, whose item is the char leaf type that the characters as a list of numbers match as well). Together: typed ==> matches an item ==> relax-typed; relax only forgets. *)
+Theorem items_sound : forall ts c l v,
+  Valid None c -> item_types ts (form_of c) = Ok l -> existsb (fun it => item_matches it v) l = true ->
+  has_typeb (relax (type_of c)) v = true.
+Proof. exact items_sound_thm. Qed.
+Print Assumptions items_sound.
+
+Theorem items_sandwich : forall ts c v,
+  Valid None c ->
+  exists l, item_types ts (form_of c) = Ok l /\
+    (has_typeb (type_of c) v = true -> existsb (fun it => item_matches it v) l = true) /\
+    (existsb (fun it => item_matches it v) l = true -> has_typeb (relax (type_of c)) v = true).
+Proof. exact items_sandwich_thm. Qed.
+Print Assumptions items_sandwich.
+
+Theorem relax_only_forgets : forall t v, has_typeb t v = true -> has_typeb (relax t) v = true.
+Proof. exact relax_weakens. Qed.
+Print Assumptions relax_only_forgets.
+
+(* (e16) the leaf type of a valid layout never carries __array__: "char" / "byte" leaves live only inside string nodes. *)
+Theorem valid_leaf_type_has_no_array_param : forall ts c pp s d,
+  Valid None c -> type_of_form ts (form_of c) = Ok (RNum pp s d) -> pfind k_array pp = None.
+Proof. exact (fun ts c pp s d H => no_char_param ts c None None pp s d H). Qed.
+Print Assumptions valid_leaf_type_has_no_array_param.
+
+(* ===================================================================== C17b: query *)
+(* C17b/Query 1: purelist_depth answered by a Form = answered by its Type (t_purelist_depth: the obvious recursion on the type, strings are leaves), all form classes incl. VirtualForm / IndexedForm parameter merging; fragment idx_ok: no IndexedForm node carries __array__ = string / bytestring, and one carrying categorical has its parameters sorted like a std::map (true of every valid layout; needed: purelist_depth_form_type_refuted, depth_form_type_categorical_refuted) *)
+Theorem purelist_depth_form_eq_type : forall ts f, idx_ok f = true -> forall t,
+  type_of_form ts f = Ok t -> f_purelist_depth f = Ok (t_purelist_depth t).
+Proof. exact purelist_depth_form_type. Qed.
+Print Assumptions purelist_depth_form_eq_type.
+
+(* C17b/Query 2: minmax_depth Form = Type, same fragment *)
+Theorem minmax_depth_form_eq_type : forall ts f, idx_ok f = true -> forall t,
+  type_of_form ts f = Ok t -> f_minmax_depth f = Ok (t_minmax_depth t).
+Proof. exact minmax_depth_form_type. Qed.
+Print Assumptions minmax_depth_form_eq_type.
+
+(* C17b/Query 3: branch_depth Form = Type, same fragment *)
+Theorem branch_depth_form_eq_type : forall ts f, idx_ok f = true -> forall t,
+  type_of_form ts f = Ok t -> f_branch_depth f = Ok (t_branch_depth t).
+Proof. exact branch_depth_form_type. Qed.
+Print Assumptions branch_depth_form_eq_type.
+
+(* C17b/Query 4: purelist_isregular Form = Type, every form that has a type (no fragment) *)
+Theorem purelist_isregular_form_eq_type : forall ts f t,
+  type_of_form ts f = Ok t -> f_purelist_isregular f = Ok (t_purelist_isregular t).
+Proof. exact purelist_isregular_form_type. Qed.
+Print Assumptions purelist_isregular_form_eq_type.
+
+(* C17b/Query 5: keys / numfields / fieldindex / key / haskey: whatever the Type answers (RecordType via util::*, list / option types delegate; PrimitiveType / UnknownType / UnionType throw) the Form answers the same; every form class, any parameters *)
+Theorem field_queries_type_then_form : forall ts f t, type_of_form ts f = Ok t ->
+  (forall ks, t_keys t = TOk ks -> f_keys f = Ok ks) /\
+  (forall n, t_numfields t = TOk n -> f_numfields f = Ok n) /\
+  (forall k i, t_fieldindex t k = TOk i -> f_fieldindex f k = Ok i) /\
+  (forall i k, t_key t i = TOk k -> f_key f i = Ok k) /\
+  (forall k b0, t_haskey t k = TOk b0 -> f_haskey f k = Ok b0).
+Proof. exact field_queries_form_type. Qed.
+Print Assumptions field_queries_type_then_form.
+
+(* C17b/Query 6: on a form that reaches a record through list / option / indexed / virtual nodes, Type and Form agree on the five field queries including the exception raised (invalid_argument / out_of_range); off that fragment they differ: field_queries_form_type_refuted (leaf: Form {} / false, Type throws; union: Form common keys, UnionType throws runtime_error FIXME) *)
+Theorem field_queries_form_eq_type_exact : forall ts f t,
+  type_of_form ts f = Ok t -> f_record_path f = true ->
+  t_keys t = tres_of (f_keys f) /\ t_numfields t = tres_of (f_numfields f) /\
+  (forall k, t_fieldindex t k = tres_of (f_fieldindex f k)) /\
+  (forall i, t_key t i = tres_of (f_key f i)) /\
+  (forall k, t_haskey t k = tres_of (f_haskey f k)).
+Proof. exact field_queries_form_type_exact. Qed.
+Print Assumptions field_queries_form_eq_type_exact.
+
+(* C17b/Query 7: fieldindex / key / haskey answered by a layout = answered by its form (all node classes, any layout) *)
+Theorem field_lookup_content_eq_form : forall c,
+  (forall k, f_fieldindex (form_of c) k = c_fieldindex c k) /\
+  (forall i, f_key (form_of c) i = c_key c i) /\
+  (forall k, f_haskey (form_of c) k = c_haskey c k).
+Proof. exact (fun c => conj (fieldindex_agree c None None) (conj (key_agree c None None) (haskey_agree c None None))). Qed.
+Print Assumptions field_lookup_content_eq_form.
+
+(* C17b/Query 8: Content = Form = Type for a valid layout: the type of its form exists, erases to the core type, and answers the depth / regularity queries like the layout; what it answers to the field queries the layout answers too *)
+Theorem queries_content_eq_form_eq_type : forall ts c, Valid None c ->
+  exists t, type_of_form ts (form_of c) = Ok t /\ erase t = type_of c /\
+    t_purelist_depth t = c_purelist_depth None c /\
+    t_minmax_depth t = c_minmax_depth None c /\
+    t_branch_depth t = c_branch_depth None c /\
+    t_purelist_isregular t = c_purelist_isregular c /\
+    (forall ks, t_keys t = TOk ks -> c_keys c = ks) /\
+    (forall n, t_numfields t = TOk n -> c_numfields c = n) /\
+    (forall k i, t_fieldindex t k = TOk i -> c_fieldindex c k = Ok i) /\
+    (forall i k, t_key t i = TOk k -> c_key c i = Ok k) /\
+    (forall k b0, t_haskey t k = TOk b0 -> c_haskey c k = Ok b0).
+Proof. exact queries_content_form_type. Qed.
+Print Assumptions queries_content_eq_form_eq_type.
+
+(* C17b/Query 9: util::fieldindex / key / haskey on a record lookup: a listed key is found at its first occurrence, key() maps back, haskey holds -- also with duplicate keys *)
+Theorem record_key_of_fieldindex : forall ks k n, In k ks -> zlen ks = n ->
+  exists i, util_fieldindex (Some ks) k n = Ok i /\ util_key (Some ks) i n = Ok k /\ util_haskey (Some ks) k n = Ok true.
+Proof. exact util_key_of_fieldindex. Qed.
+Print Assumptions record_key_of_fieldindex.
+
+(* C17b/Query 10: fieldindex (key i) = i needs distinct keys (util_fieldindex_of_key_refuted: keys a, a) *)
+Theorem record_fieldindex_of_key : forall ks i n, NoDup ks -> 0 <= i < n -> zlen ks = n ->
+  exists k, util_key (Some ks) i n = Ok k /\ util_fieldindex (Some ks) k n = Ok i.
+Proof. exact util_fieldindex_of_key. Qed.
+Print Assumptions record_fieldindex_of_key.
+
+(* C17b/Query 11: tuples: key i = the decimal string of i and fieldindex / haskey read it back (std::stoi), for i <= INT_MAX (beyond: std::out_of_range escapes, also from haskey: util_tuple_roundtrip_refuted) *)
+Theorem tuple_key_fieldindex_roundtrip : forall i n, 0 <= i < n -> i <= 2147483647 ->
+  util_key None i n = Ok (dec_of_Z i) /\ util_fieldindex None (dec_of_Z i) n = Ok i /\
+  util_haskey None (dec_of_Z i) n = Ok true.
+Proof. exact util_tuple_roundtrip. Qed.
+Print Assumptions tuple_key_fieldindex_roundtrip.
+
+(* C17b/Query 12: every key listed by Form::keys is a key for haskey, and (union-free path) fieldindex finds it and key maps back; all form classes; rec_wf: the record reached has as many keys as contents, a tuple at most 2^31 fields. The converse fails (haskey_is_membership_refuted: "0" is a key of every non-empty record) *)
+Theorem form_keys_have_key : forall f, rec_wf f = true -> forall ks k, f_keys f = Ok ks -> In k ks ->
+  f_haskey f k = Ok true /\
+  (f_record_path f = true -> exists i, f_fieldindex f k = Ok i /\ f_key f i = Ok k).
+Proof. exact keys_have_key. Qed.
+Print Assumptions form_keys_have_key.
+
+(* C17b/Query 13: numfields = number of keys, or -1 with no keys when neither a record nor a union is reached (needs rec_wf: numfields_is_number_of_keys_refuted) *)
+Theorem form_numfields_is_number_of_keys : forall f, rec_wf f = true -> forall n ks,
+  f_numfields f = Ok n -> f_keys f = Ok ks -> (n = -1 /\ ks = []) \/ n = zlen ks.
+Proof. exact numfields_is_number_of_keys. Qed.
+Print Assumptions form_numfields_is_number_of_keys.
+
+(* C17b/Query 14: the queries agree with the nested-list value: for a valid layout with no union between the array and its first record / leaf (union_free_path), every element, after peeling lists and None, has records with exactly the keys c_keys in order (tuples: "0","1",...), every number / string / record sits at list depth exactly purelist_depth, and if purelist_isregular the element is a rectangular block of the regular dimensions. Unions excluded: depth_agrees_with_value_refuted, keys_regular_agree_with_value_refuted *)
+Theorem queries_agree_with_nested_list_value : forall c vs,
+  Valid None c -> to_list c = Ok vs -> union_free_path c = true ->
+  Forall (fun v => value_keys_ok (c_keys c) v = true /\
+                   list_depth_exact (c_purelist_depth None c) v = true /\
+                   (c_purelist_isregular c = true -> regular_value (ty_dims (type_of c)) v = true)) vs.
+Proof. exact queries_agree_with_value. Qed.
+Print Assumptions queries_agree_with_nested_list_value.
+
+(* C17b/Query 15: numfields of a valid layout = number of its keys, or -1 with no keys (no record / union reached); all node classes *)
+Theorem numfields_is_number_of_keys_layout : forall c, Valid None c ->
+  (c_numfields c = -1 /\ c_keys c = []) \/ c_numfields c = zlen (c_keys c).
+Proof. exact (fun c H => c_numfields_keys c None H). Qed.
+Print Assumptions numfields_is_number_of_keys_layout.
+
+(* C17b/Query 16: minmax_depth is ordered (min <= max) for every form that answers, all classes incl. VirtualForm; and for every layout with dimensions *)
+Theorem minmax_depth_min_le_max : forall f mm, f_minmax_depth f = Ok mm -> fst mm <= snd mm.
+Proof. exact minmax_depth_ordered. Qed.
+Print Assumptions minmax_depth_min_le_max.
+
+Theorem minmax_depth_min_le_max_layout : forall c, np_ok c = true -> fst (c_minmax_depth None c) <= snd (c_minmax_depth None c).
+Proof. exact c_minmax_depth_ordered. Qed.
+Print Assumptions minmax_depth_min_le_max_layout.
+
+(* C17b/Query 17: on a form without record and union nodes the three depth queries coincide (also in their error status): minmax = (d,d), branch = (false,d), d >= 1 where d = purelist_depth. With records / unions the natural laws fail: depth_laws_refuted *)
+Theorem pure_list_depth_queries_coincide : forall f, f_pure f = true ->
+  f_minmax_depth f = (do d <- f_purelist_depth f; Ok (d, d)) /\
+  f_branch_depth f = (do d <- f_purelist_depth f; Ok (false, d)) /\
+  (forall d, f_purelist_depth f = Ok d -> 1 <= d).
+Proof. exact pure_depths_coincide. Qed.
+Print Assumptions pure_list_depth_queries_coincide.
+
+(* C17b/Query 18: purelist_depth >= 1 when no union lies between the node and its first record / leaf (with unions it can be -1, 0, or a positive number unrelated to the leaves: depth_laws_refuted) *)
+Theorem purelist_depth_positive_without_union : forall f, f_union_free_path f = true -> forall d, f_purelist_depth f = Ok d -> 1 <= d.
+Proof. exact purelist_depth_positive. Qed.
+Print Assumptions purelist_depth_positive_without_union.
+
+(* C17b/Query 19: minmax_depth of a valid layout is that of its (core) type, computed with the C++ loop *)
+Theorem minmax_depth_layout_eq_type : forall c, Valid None c -> c_minmax_depth None c = minmax_ty (type_of c).
+Proof. exact c_minmax_is_type_minmax. Qed.
+Print Assumptions minmax_depth_layout_eq_type.
+
+(* C17b/Query 20: minmax_depth of a type with parameters (t_minmax_depth) = the C++ loop minmax_ty on its erasure to the core type language; every type *)
+Theorem minmax_depth_type_eq_erased : forall t, t_minmax_depth t = minmax_ty (erase t).
+Proof. exact t_minmax_erase. Qed.
+Print Assumptions minmax_depth_type_eq_erased.
+
+(* C17b/Query 21: the core AwkV.Types.minmax (plain min / max over fields / alternatives, used by axis resolution) = the C++ loop minmax_ty (which starts from (kMaxInt64, 0)) on every type whose depths fit an int64 (ty_depth_ok); without it they differ, on a term nested deeper than 2^63 lists: core_minmax_is_minmax_ty_refuted *)
+Theorem core_minmax_eq_minmax_ty_partial : forall t, ty_depth_ok t = true -> minmax t = minmax_ty t.
+Proof. exact core_minmax_is_minmax_ty_partial. Qed.
+Print Assumptions core_minmax_eq_minmax_ty_partial.
+
+(* C17b/Query 22: layout minmax_depth = core minmax of its type = C++ loop on its type *)
+Theorem minmax_depth_layout_eq_core_type : forall c, Valid None c -> ty_depth_ok (type_of c) = true ->
+  c_minmax_depth None c = minmax (type_of c) /\ minmax (type_of c) = minmax_ty (type_of c).
+Proof. exact c_minmax_is_core_minmax. Qed.
+Print Assumptions minmax_depth_layout_eq_core_type.
+
+(* C17b/Query 23: a layout without record and union nodes: minmax_depth = (d,d), branch_depth = (false,d), d = purelist_depth >= 1, and every number / boolean / string of every element of the nested-list value sits at list depth exactly d *)
+Theorem pure_layout_depth_queries : forall c, np_ok c = true -> pure_layout c = true ->
+  c_minmax_depth None c = (c_purelist_depth None c, c_purelist_depth None c) /\
+  c_branch_depth None c = (false, c_purelist_depth None c) /\ 1 <= c_purelist_depth None c.
+Proof. exact pure_layout_depths. Qed.
+Print Assumptions pure_layout_depth_queries.
+
+Theorem purelist_depth_is_exact_leaf_depth : forall c vs, Valid None c -> to_list c = Ok vs -> pure_layout c = true ->
+  Forall (fun v => leaf_depth_in (c_purelist_depth None c) (c_purelist_depth None c) v = true) vs.
+Proof. exact pure_layout_leaf_depth. Qed.
+Print Assumptions purelist_depth_is_exact_leaf_depth.
+
+(* C17b/Query 24: all node classes, unions included: every record (tuple) found in an element of a valid layout, after peeling lists and None, has every key listed by the layout's keys() (for unions keys() is the intersection over the alternatives, so this is all one can say: keys_regular_agree_with_value_refuted) *)
+Theorem listed_keys_are_in_every_record : forall c vs, Valid None c -> to_list c = Ok vs ->
+  Forall (fun v => value_has_keys (c_keys c) v = true) vs.
+Proof. exact keys_in_every_record. Qed.
+Print Assumptions listed_keys_are_in_every_record.
+
+(* C17b/Query 25: layouts: every key listed by keys() of a valid layout (tuples of at most 2^31 fields) is a key for haskey(); on a union-free path fieldindex() finds it and key() maps back *)
+Theorem layout_keys_have_key : forall c, Valid None c -> c_tuples_small c = true -> forall k, In k (c_keys c) ->
+  c_haskey c k = Ok true /\
+  (c_record_path c = true -> exists i, c_fieldindex c k = Ok i /\ c_key c i = Ok k).
+Proof. exact valid_keys_have_key. Qed.
+Print Assumptions layout_keys_have_key.
+
+(* C17b/Query 26: Content = Type on keys / numfields / fieldindex / key / haskey exactly -- answers and the exception raised (invalid_argument, out_of_range) -- for a valid layout that reaches a record through list / option / indexed nodes *)
+Theorem field_queries_content_eq_type_exact : forall ts c, Valid None c -> c_record_path c = true ->
+  exists t, type_of_form ts (form_of c) = Ok t /\
+    t_keys t = TOk (c_keys c) /\ t_numfields t = TOk (c_numfields c) /\
+    (forall k, t_fieldindex t k = tres_of (c_fieldindex c k)) /\
+    (forall i, t_key t i = tres_of (c_key c i)) /\
+    (forall k, t_haskey t k = tres_of (c_haskey c k)).
+Proof. exact field_queries_content_type_exact. Qed.
+Print Assumptions field_queries_content_eq_type_exact.
+
+(* C17b/Query 27: purelist_depth of a layout >= 1 unless a union lies between the node and its first record / leaf *)
+Theorem purelist_depth_positive_layout : forall c, np_ok c = true -> f_union_free_path (form_of c) = true -> 1 <= c_purelist_depth None c.
+Proof. exact c_purelist_depth_positive. Qed.
+Print Assumptions purelist_depth_positive_layout.
+
+(* C17b/Query 28: branch_depth.first = false ("not branching") gives minmax_depth = (d, d), d = branch_depth.second; _partial: every record / union has at least one content (f_nonempty; otherwise depth_laws_refuted: record without fields, empty union) and the depth fits an int64; all form classes, records and unions included; and for layouts *)
+Theorem not_branching_minmax_partial : forall f, f_nonempty f = true -> forall bd mm,
+  f_branch_depth f = Ok bd -> f_minmax_depth f = Ok mm -> snd mm < kMaxInt64 -> fst bd = false ->
+  mm = (snd bd, snd bd).
+Proof. exact branch_false_minmax_partial. Qed.
+Print Assumptions not_branching_minmax_partial.
+
+Theorem not_branching_minmax_layout_partial : forall c, np_ok c = true -> f_nonempty (form_of c) = true ->
+  snd (c_minmax_depth None c) < kMaxInt64 -> fst (c_branch_depth None c) = false ->
+  c_minmax_depth None c = (snd (c_branch_depth None c), snd (c_branch_depth None c)).
+Proof. exact c_branch_false_minmax_partial. Qed.
+Print Assumptions not_branching_minmax_layout_partial.
+
+(* C17b/Query 29: key(i) for i >= 0 is the i-th entry of keys(), every form class (rec_wf as above); conversely on a union-free path to a record *)
+Theorem form_key_is_keys_entry : forall f, rec_wf f = true -> forall ks i k, f_keys f = Ok ks -> 0 <= i ->
+  (f_key f i = Ok k -> get ks i = Ok k) /\ (f_record_path f = true -> get ks i = Ok k -> f_key f i = Ok k).
+Proof. exact key_is_keys_entry. Qed.
+Print Assumptions form_key_is_keys_entry.
+
+(* C17b/Query 30: Type::keys answers exactly when the form reaches a record through list / option / indexed / virtual nodes (otherwise it throws although Form::keys answers: field_queries_form_type_refuted) *)
+Theorem type_keys_answers_iff_form_reaches_record : forall ts f t, type_of_form ts f = Ok t ->
+  ((exists ks, t_keys t = TOk ks) <-> f_record_path f = true).
+Proof. exact type_keys_answers_iff_record_path. Qed.
+Print Assumptions type_keys_answers_iff_form_reaches_record.
+
+(* C17b/Query 31: key(i) of a valid layout (union-free path, rec_wf) names the i-th field of every record found in its nested-list value (tuples: position i, name the decimal string of i) *)
+Theorem key_names_field_of_every_record : forall c vs i k,
+  Valid None c -> to_list c = Ok vs -> union_free_path c = true -> c_rec_wf c = true ->
+  0 <= i -> c_key c i = Ok k -> Forall (fun v => value_field_at i k v = true) vs.
+Proof. exact key_names_value_field. Qed.
+Print Assumptions key_names_field_of_every_record.
+
+(* C17b/Query 32: fieldindex(k) of a listed key k answers the position of the field named k in every record of the value *)
+Theorem fieldindex_is_position_in_every_record : forall c vs k,
+  Valid None c -> to_list c = Ok vs -> union_free_path c = true -> c_rec_wf c = true -> c_record_path c = true ->
+  In k (c_keys c) ->
+  exists i, c_fieldindex c k = Ok i /\ Forall (fun v => value_field_at i k v = true) vs.
+Proof. exact fieldindex_names_value_field. Qed.
+Print Assumptions fieldindex_is_position_in_every_record.
+
+(* C17b/Query 33: purelist_depth is the exact list depth of every number / string / record of the value for ALL node classes, unions included, as long as no union on the way mixes alternatives of different purelist_depth (depth_consistent; exactly the case where that union answers -1, after which the lists above add 1 each: depth_agrees_with_value_refuted) *)
+Theorem purelist_depth_is_exact_depth_with_unions : forall c vs, Valid None c -> to_list c = Ok vs -> depth_consistent c = true ->
+  Forall (fun v => list_depth_exact (c_purelist_depth None c) v = true) vs.
+Proof. exact purelist_depth_exact_with_unions. Qed.
+Print Assumptions purelist_depth_is_exact_depth_with_unions.
+
+(* ===================================================================== C17b: lark *)
+(* C17 (Lark): the fragment inverted by the repository's parser is inside the fragment of the reference parser. *)
+Theorem lark_fragment_printable : forall hl t, lark_ok hl t = true -> printable t = true.
+Proof. exact lark_ok_printable. Qed.
+Print Assumptions lark_fragment_printable.
+
+(* C17 (Lark): a type of the fragment [lark_ok high_level] survives Type::tostring followed by the model of ak.types.from_datashape(s, high_level) (Lark grammar + toast), with no ArrayType in the result. *)
+Theorem lark_print_parse_roundtrip : forall hl t, lark_ok hl t = true -> lark_parse hl (type_tostring t) = Ok t.
+Proof. exact lark_roundtrip. Qed.
+Print Assumptions lark_print_parse_roundtrip.
+
+(* C17 (Lark): the same with the ArrayType flag explicit (false). *)
+Theorem lark_print_parse_roundtrip_full : forall hl t, lark_ok hl t = true -> lark_parse_full hl (type_tostring t) = Ok (t, false).
+Proof. exact lark_roundtrip_full. Qed.
+Print Assumptions lark_print_parse_roundtrip_full.
+
+(* C17 (Lark): what the harness counts as "brought back": one of the two modes returns the type itself. *)
+Theorem lark_print_parse_some_mode : forall t, lark_ok false t || lark_ok true t = true -> lark_parse false (type_tostring t) = Ok t \/ lark_parse true (type_tostring t) = Ok t.
+Proof. exact lark_roundtrip_some_mode. Qed.
+Print Assumptions lark_print_parse_some_mode.
+
+(* C17 (Lark): on its fragment the repository's parser agrees with the reference parser type_parse. *)
+Theorem lark_agrees_with_type_parse : forall hl t, lark_ok hl t = true -> lark_parse hl (type_tostring t) = type_parse (type_tostring t).
+Proof. exact lark_agrees_with_reference. Qed.
+Print Assumptions lark_agrees_with_type_parse.
+
+(* C17 (Lark): the open findings lark-* as refutations (a printed type that does not come back in either mode). *)
+Theorem lark_finding_empty_record_or_union : lark_parse false (type_tostring (RRec [] [] None [])) <> Ok (RRec [] [] None []) /\ lark_parse true (type_tostring (RRec [] [] None [])) <> Ok (RRec [] [] None []).
+Proof. exact (proj1 (proj2 lark_empty_record_or_union_refuted)). Qed.
+Print Assumptions lark_finding_empty_record_or_union.
+
+(* C17 (Lark): finding lark-highlevel-turns-regular-into-arraytype: option[3 * var * int64] fails in low-level mode (assert high_level) and contains an ArrayType in high-level mode. *)
+Theorem lark_finding_highlevel_arraytype : lark_parse false (type_tostring (ROpt [] [] (RReg [] [] 3 (RList [] [] (RNum [] [] (FD DInt64)))))) = Err EValue /\ lark_parse true (type_tostring (ROpt [] [] (RReg [] [] 3 (RList [] [] (RNum [] [] (FD DInt64)))))) = Err EOob.
+Proof. exact lark_highlevel_arraytype_both_modes. Qed.
+Print Assumptions lark_finding_highlevel_arraytype.
+
+(* C17 (Lark): finding lark-dtype-not-in-grammar: the seven primitive names outside the TYPE terminal are rejected. *)
+Theorem lark_finding_dtype_not_in_grammar : Forall (fun dt => (lark_parse false (type_tostring (RNum [] [] dt)) <> Ok (RNum [] [] dt) /\ lark_parse true (type_tostring (RNum [] [] dt)) <> Ok (RNum [] [] dt)) /\ lark_parse false (dtype_to_name dt) = Err EValue) [FFloat16; FFloat128; FComplex64; FComplex128; FComplex256; FDatetime64; FTimedelta64].
+Proof. exact (proj2 lark_dtype_not_in_grammar_refuted). Qed.
+Print Assumptions lark_finding_dtype_not_in_grammar.
+
+(* C17 (Lark): finding lark-string-escapes-not-decoded: the key a"b comes back as a\"b. *)
+Theorem lark_finding_string_escapes : lark_parse false (type_tostring (RRec [] [] (Some [[97; 34; 98]]) [RNum [] [] (FD DInt64)])) = Ok (RRec [] [] (Some [[97; 92; 34; 98]]) [RNum [] [] (FD DInt64)]).
+Proof. exact (proj2 (proj2 lark_string_escapes_not_decoded_refuted)). Qed.
+Print Assumptions lark_finding_string_escapes.
+
+(* C17 (Lark): the high-level round trip extended to categorical types: any parameter-free node except a named record or a string type may carry "__categorical__": true (printed categorical[type=...]). *)
+Theorem lark_print_parse_roundtrip_categorical : forall t, lark_okc t = true -> lark_parse true (type_tostring t) = Ok t.
+Proof. exact lark_cat_roundtrip. Qed.
+Print Assumptions lark_print_parse_roundtrip_categorical.
+
+(* C17 (Lark): the categorical fragment contains the high-level parameter-free fragment. *)
+Theorem lark_fragment_categorical_extends : forall t, lark_ok true t = true -> lark_okc t = true.
+Proof. exact lark_ok_okc. Qed.
+Print Assumptions lark_fragment_categorical_extends.
+
+(* C17 (Lark): in low-level mode the parser never builds an ArrayType (lark_parse false is lark_parse_full false without the flag). *)
+Theorem lark_lowlevel_never_arraytype : forall s, lark_parse false s = rmap fst (lark_parse_full false s).
+Proof. exact lark_lowlevel_no_arraytype. Qed.
+Print Assumptions lark_lowlevel_never_arraytype.
+
+(* C17 (Lark): the text Type::string_parameters prints for a map with scalar values (no "__categorical__" key, sorted, keys without escapes; values null / booleans / integers / strings without escapes) is read back by the def_option production as that map. *)
+Theorem lark_parameters_text_roundtrip : forall p rest, pok p = true -> lk_def_option (string_parameters p ++ rest) = Ok (p, rest).
+Proof. exact lk_def_option_ok. Qed.
+Print Assumptions lark_parameters_text_roundtrip.
+
+(* C17 (Lark): the round trip for types whose nodes carry scalar parameters, or only "__categorical__": true (high level), or none: fragment lark_okp, in the stated mode. *)
+Theorem lark_print_parse_roundtrip_parameters : forall hl t, lark_okp hl t = true -> lark_parse hl (type_tostring t) = Ok t.
+Proof. exact lark_param_roundtrip. Qed.
+Print Assumptions lark_print_parse_roundtrip_parameters.
+
+(* C17 (Lark): the same, as the harness counts it (one of the two modes). *)
+Theorem lark_print_parse_parameters_some_mode : forall t, lark_okp false t || lark_okp true t = true -> lark_parse false (type_tostring t) = Ok t \/ lark_parse true (type_tostring t) = Ok t.
+Proof. exact lark_param_roundtrip_some_mode. Qed.
+Print Assumptions lark_print_parse_parameters_some_mode.
+
+(* C17 (Lark): lark_okp contains the parameter-free fragment (either mode) and the categorical fragment. *)
+Theorem lark_fragment_parameters_extends : forall hl t, lark_ok hl t = true -> lark_okp hl t = true.
+Proof. exact lark_ok_okp. Qed.
+Print Assumptions lark_fragment_parameters_extends.
+
+(* C17 (Lark): lark_okp true contains the categorical fragment lark_okc. *)
+Theorem lark_fragment_parameters_extends_categorical : forall t, lark_okc t = true -> lark_okp true t = true.
+Proof. exact lark_okc_okp. Qed.
+Print Assumptions lark_fragment_parameters_extends_categorical.
